@@ -796,6 +796,40 @@ def rejection_rendering_stream(ctx, res):
                         dict(case, diff=d, schemas_before=n_schemas, schemas_after=len(all_schemas(s))))
 
 
+def extra_field_copies_stream(ctx, res):
+    """extra fields of dynamic configurations stay with the configuration they were added to — also when that configuration is a
+    per-configuration copy of an item declared in a list default, or a copy.deepcopy of another configuration"""
+    import cincoconfig as cc
+    for typed in (False, True):
+        item = cc.Schema(dynamic=True)
+        item.name = cc.StringField(default="n")
+        item.port = cc.IntField(default=80)
+        T = cc.make_type(item, "DynItem") if typed else item
+        s = cc.Schema(dynamic=True)
+        s.items = cc.ListField(T, default=[T(name="declared")])
+        case = {"stream": "extra-field-copies", "config_type": typed}
+        res.case(stable(case), kind="extra-field-copies")
+        try:
+            a, b = s(), s()
+            declared = s._fields["items"].default[0]
+            a.items[0].note = "only-a"
+            a.items[0].weight = 5
+            a.top_extra = 1
+            later = s()
+            dup = copy.deepcopy(b)
+            dup.copy_extra = "only-the-copy"
+            dup.items[0].copy_note = "only-the-copy"
+            views = {"other": sorted(b.items[0]._fields), "declared": sorted(declared._fields), "later": sorted(later.items[0]._fields),
+                     "other-root": sorted(b._fields), "later-root": sorted(later._fields), "original-of-copy": sorted(b.items[0]._fields) + sorted(b._fields)}
+            unknown = b.items[0].note                  # an unknown key of a dynamic configuration reads as None
+        except Exception as e:  # noqa
+            res.violate("C13:extra-field-leaked", "extra fields on copies of configurations raised %s" % type(e).__name__, dict(case, error=str(e)[:120]))
+            continue
+        if any(views.values()) or unknown is not None:
+            res.violate("C13:extra-field-leaked", "an extra field added to one dynamic configuration shows in another one (a sibling copy of a default item, the declared item, "
+                        "a later configuration, the original of a deep copy)", dict(case, views={k: v for k, v in views.items() if v}, unknown_reads_as=repr(unknown)))
+
+
 def include_sharing_stream(ctx, res):
     """two configurations of one schema that each load a document naming the SAME include file, whose values land in positions no
     typed field copies (untyped lists and dicts, AnyField, dynamic fields; at the root and in a nested scope): editing what one of them
@@ -995,6 +1029,7 @@ def run(ctx, n_quick=250, n_thorough=8000):
     guard(res, "C13", odd_default_stream, ctx, res)
     guard(res, "C13", rejection_rendering_stream, ctx, res)
     guard(res, "C13", include_sharing_stream, ctx, res)
+    guard(res, "C13", extra_field_copies_stream, ctx, res)
     replies = ctx.model(reqs)
     if replies is not None:
         for (case, trace), r in zip(pend, replies):
